@@ -23,7 +23,7 @@
 //!                                              |{"out":"err","err":text}|{"out":"panic","msg":..}|{"out":"timeout"}}
 //!   {"op":"open","seq":n,"c":c,"tr":..,"n":k,"res":{"connected":k}}
 //!   {"op":"send","seq":n,"c":c,"cls":..,"res":{"sent":k}}
-//!   {"op":"finish","seq":n,"c":c,"ms":t,"res":{"outs":[{"out":"closed"|"reply"|"open","status":s,"rows":r,"bytes":b},..]}}
+//!   {"op":"finish","seq":n,"c":c,"ms":t,"ticks":server_ticks,"res":{"outs":[{"out":"closed"|"reply"|"open","status":s,"rows":r,"bytes":b},..]}}
 //!   {"op":"end","seq":n,"res":{"panics":[..],"server_exited":bool,"tcp_exited":bool}}   (listener tasks returned)
 //!   {"op":"hang","res":{"outcome":"hang"}}
 //! `v` of a typed value is its canonical text: the string itself, lower-case hex of the bytes, the
@@ -48,8 +48,8 @@ use verif_harness::{arg, arg_u64, read_programs};
 const TICK: Duration = Duration::from_millis(100);
 /// a concurrent valid probe must be answered within 30 s of server time (generous: shared, loaded machine)
 const PROBE_TICKS: u64 = 300;
-/// the server's read timeout is 10 s; a never-terminated request is given 4.5x that of server time, counted from
-/// the moment the connection group was opened, before "open" is recorded
+/// the server's read timeout is 10 s; a connection is recorded as still "open" only after 4.5x that of server time
+/// during which no socket of its group was answered or closed (counted from the moment the group was opened)
 const FINISH_TICKS: u64 = 450;
 /// wall-clock bound for kernel-only operations (connect / write on loopback) and for a whole program
 const PROBE_DEADLINE: Duration = Duration::from_secs(30);
@@ -372,7 +372,19 @@ fn request_bytes(tr: &str, cls: &str, big: usize) -> (Vec<u8>, bool) {
 }
 
 /// What came back on a raw socket: nothing + EOF, some reply, or still open at the deadline.
-async fn finish_one(mut s: TcpStream, tr: String, ticks: Arc<std::sync::atomic::AtomicU64>, deadline_tick: u64) -> Value {
+/// `progress` is the server tick at which any socket of the group last received data or was closed (initially the
+/// tick at which the group was opened); `floor` is the earliest tick at which giving up is allowed at all.  A socket
+/// is recorded as still open only when the whole group has seen nothing for FINISH_TICKS of *server* time: when
+/// connections wait in the listen backlog (descriptor exhaustion) the server closes them in waves of one read
+/// time-out each, and every wave is progress.
+async fn finish_one(
+    mut s: TcpStream,
+    tr: String,
+    ticks: Arc<std::sync::atomic::AtomicU64>,
+    progress: Arc<std::sync::atomic::AtomicU64>,
+    floor: u64,
+) -> Value {
+    use std::sync::atomic::Ordering::Relaxed;
     let mut buf = Vec::new();
     let mut tmp = [0u8; 8192];
     let mut eof = false;
@@ -382,18 +394,23 @@ async fn finish_one(mut s: TcpStream, tr: String, ticks: Arc<std::sync::atomic::
         // data or a close that is already there is never missed, however late this task runs.
         match tokio::time::timeout(Duration::from_millis(250), s.read(&mut tmp)).await {
             Err(_) => {
-                if ticks.load(std::sync::atomic::Ordering::Relaxed) >= deadline_tick {
+                let now = ticks.load(Relaxed);
+                if now >= progress.load(Relaxed) + FINISH_TICKS && now >= floor {
                     if last_round {
                         break;
                     }
                     last_round = true;
+                } else {
+                    last_round = false;
                 }
             }
             Ok(Ok(0)) => {
+                progress.fetch_max(ticks.load(Relaxed), Relaxed);
                 eof = true;
                 break;
             }
             Ok(Ok(n)) => {
+                progress.fetch_max(ticks.load(Relaxed), Relaxed);
                 buf.extend_from_slice(&tmp[..n]);
                 if buf.len() > (64 << 20) {
                     break;
@@ -401,6 +418,7 @@ async fn finish_one(mut s: TcpStream, tr: String, ticks: Arc<std::sync::atomic::
             }
             Ok(Err(_)) => {
                 // reset by peer: the connection is gone
+                progress.fetch_max(ticks.load(Relaxed), Relaxed);
                 eof = true;
                 break;
             }
@@ -545,9 +563,13 @@ async fn run_program(idx: usize, prog: Value, big: usize, evs: Arc<Mutex<Vec<Str
             }
             "finish" => {
                 let c = conns.remove(&step["c"].as_u64().expect("c")).expect("finish on a connection that was not opened");
-                let deadline = (c.opened + FINISH_TICKS).max(srv.now() + 20);
+                let tick0 = srv.now();
+                let progress = Arc::new(std::sync::atomic::AtomicU64::new(c.opened));
                 let mut outs: Vec<Value> = vec![];
-                let results = futures::future::join_all(c.socks.into_iter().map(|s| finish_one(s, c.tr.clone(), srv.ticks.clone(), deadline))).await;
+                let results = futures::future::join_all(
+                    c.socks.into_iter().map(|s| finish_one(s, c.tr.clone(), srv.ticks.clone(), progress.clone(), tick0 + 20)),
+                )
+                .await;
                 for r in results {
                     if !outs.contains(&r) {
                         outs.push(r);
@@ -557,13 +579,14 @@ async fn run_program(idx: usize, prog: Value, big: usize, evs: Arc<Mutex<Vec<Str
                     // environment, not verdict: server and clients share this process' descriptor table; before the
                     // next step give the server's tasks time to notice the closed sockets and release their ends
                     // (a server that never releases them keeps the table full and the following probes fail)
-                    let t1 = Instant::now();
-                    while open_descriptors() > 100 && t1.elapsed() < Duration::from_secs(30) {
+                    let t1 = srv.now();
+                    while open_descriptors() > 100 && srv.now() - t1 < PROBE_TICKS {
                         tokio::time::sleep(Duration::from_millis(50)).await;
                     }
                 }
                 ev["res"] = json!({"outs": outs});
                 ev["ms"] = json!(t0.elapsed().as_millis() as u64);
+                ev["ticks"] = json!(srv.now() - tick0);
             }
             other => panic!("driver: unknown op {other}"),
         }
